@@ -46,55 +46,98 @@ Section WriterProofs.
     destruct (lenN (deflate 0 x) <=? MAX_COMPRESSED_SIZE) eqn:E0; [reflexivity|lia].
   Qed.
 
+  (* The sink is a sequence of SEGMENTS, each a list of blocks followed by one EOF marker
+     (closed by a try_finish), then the frames of the segment still open.  Only the first closed
+     segment may be empty (try_finish on a fresh writer): two markers are never adjacent. *)
+  Definition seg_bytes (seg : list (list N)) : list N :=
+    frames_bytes (map wframe seg) ++ eof_block.
+  Definition segs_bytes (segs : list (list (list N))) : list N := concat (map seg_bytes segs).
+  Definition tail_nonempty (segs : list (list (list N))) : Prop :=
+    match segs with [] => True | _ :: t => Forall (fun s => s <> []) t end.
+
+  Definition base (st : wstate) (closed : list (list (list N))) (cur : list (list N)) : Prop :=
+    w_sink st = segs_bytes closed ++ frames_bytes (map wframe cur) /\ w_pos st = lenN (w_sink st) /\
+    Forall (Forall good_block) closed /\ Forall good_block cur /\ w_inner st = true /\
+    tail_nonempty closed.
+
+  (* is_finished <-> the last thing in the sink is a marker *)
+  Definition flag (st : wstate) (closed : list (list (list N))) (cur : list (list N)) : Prop :=
+    (w_finished st = true -> cur = [] /\ closed <> []) /\
+    (w_finished st = false -> closed = [] \/ cur <> []).
+
   (* inv0: staging may be full (the state inside write before the flush); inv: between calls *)
-  Definition inv0 (st : wstate) (blocks : list (list N)) : Prop :=
-    w_sink st = frames_bytes (map wframe blocks) /\ w_pos st = lenN (w_sink st) /\
-    lenN (w_staging st) <= MAX_BUF_SIZE /\ Forall good_block blocks /\ w_inner st = true.
+  Definition inv0 st closed cur : Prop :=
+    base st closed cur /\ flag st closed cur /\ lenN (w_staging st) <= MAX_BUF_SIZE.
+  Definition inv st closed cur : Prop := inv0 st closed cur /\ lenN (w_staging st) < MAX_BUF_SIZE.
 
-  Definition inv (st : wstate) (blocks : list (list N)) : Prop :=
-    inv0 st blocks /\ lenN (w_staging st) < MAX_BUF_SIZE.
+  Definition content (st : wstate) (closed : list (list (list N))) (cur : list (list N)) : list N :=
+    concat (concat closed) ++ concat cur ++ w_staging st.
 
-  Definition content (st : wstate) (blocks : list (list N)) : list N :=
-    concat blocks ++ w_staging st.
+  Lemma inv_init : inv w_init [] [].
+  Proof.
+    unfold inv, inv0, base, flag, w_init, MAX_BUF_SIZE.
+    cbn [w_sink w_pos w_staging w_inner w_finished].
+    split; [split; [|split]|].
+    - repeat split; constructor.
+    - split; [discriminate|]. intros _. left. reflexivity.
+    - cbn. lia.
+    - cbn. lia.
+  Qed.
 
-  Lemma inv_init : inv w_init [].
-  Proof. unfold inv, inv0, w_init, MAX_BUF_SIZE. cbn. repeat split; try lia; constructor. Qed.
+  Lemma tail_nonempty_snoc :
+    forall closed seg, tail_nonempty closed -> (closed = [] \/ seg <> []) -> tail_nonempty (closed ++ [seg]).
+  Proof.
+    intros closed seg Ht Hor. destruct closed as [|c closed]; [cbn; constructor|].
+    cbn [app tail_nonempty] in *. apply Forall_app. split; [exact Ht|].
+    constructor; [|constructor]. destruct Hor as [H|H]; [discriminate H|exact H].
+  Qed.
+
+  Lemma segs_bytes_snoc : forall closed seg, segs_bytes (closed ++ [seg]) = segs_bytes closed ++ seg_bytes seg.
+  Proof.
+    intros closed seg. unfold segs_bytes. rewrite map_app, concat_app. cbn [map concat].
+    rewrite app_nil_r. reflexivity.
+  Qed.
 
   Lemma flush_block_inv :
-    forall st blocks, inv0 st blocks -> w_staging st <> [] ->
-      exists st', flush_block deflate lvl st = (st', Ok tt) /\ inv st' (blocks ++ [w_staging st]) /\
+    forall st closed cur, inv0 st closed cur -> w_staging st <> [] ->
+      exists st', flush_block deflate lvl st = (st', Ok tt) /\ inv st' closed (cur ++ [w_staging st]) /\
                   w_staging st' = [].
   Proof.
-    intros [pos stg sink inner] blocks (Hs & Hp & Hl & Hb & Hi) Hne. cbn [w_sink w_pos w_staging w_inner] in *.
-    unfold flush_block. cbn [w_sink w_pos w_staging w_inner].
+    intros [pos stg sink inner fin] closed cur ((Hs & Hp & Hgc & Hgb & Hi & Htn) & Hflag & Hl) Hne.
+    cbn [w_sink w_pos w_staging w_inner w_finished] in *.
+    unfold flush_block. cbn [w_sink w_pos w_staging w_inner w_finished].
     rewrite (encode_ok stg Hl). pose proof (enc_bound stg Hl) as Hc.
     unfold MAX_BUF_SIZE, MAX_COMPRESSED_SIZE in *.
     rewrite write_frame_ok by lia.
     eexists. split; [reflexivity|]. split; [|reflexivity].
-    unfold inv, inv0. cbn [w_sink w_pos w_staging w_inner]. unfold MAX_BUF_SIZE.
-    split; [split; [|split; [|split; [|split]]]|].
-    - rewrite map_app, frames_bytes_app. cbn [map]. rewrite frames_bytes_one. subst sink. reflexivity.
+    unfold inv, inv0, base, flag. cbn [w_sink w_pos w_staging w_inner w_finished]. unfold MAX_BUF_SIZE.
+    split; [split; [split; [|split; [|split; [|split; [|split]]]]|split]|].
+    - rewrite map_app, frames_bytes_app. cbn [map]. rewrite frames_bytes_one. subst sink.
+      rewrite <- app_assoc. reflexivity.
     - rewrite lenN_app, frame_bytes_lenN. lia.
-    - cbn. lia.
-    - apply Forall_app. split; [exact Hb|]. constructor; [|constructor].
+    - exact Hgc.
+    - apply Forall_app. split; [exact Hgb|]. constructor; [|constructor].
       split; [exact Hne|exact Hl].
     - exact Hi.
+    - exact Htn.
+    - split; [discriminate|]. intros _. right. destruct cur; discriminate.
+    - cbn. lia.
     - cbn. lia.
   Qed.
 
   Lemma flush_inv :
-    forall st blocks, inv0 st blocks ->
-      exists st' blocks', flush deflate lvl st = (st', Ok tt) /\ inv st' blocks' /\
-        w_staging st' = [] /\ concat blocks' = content st blocks.
+    forall st closed cur, inv0 st closed cur ->
+      exists st' cur', flush deflate lvl st = (st', Ok tt) /\ inv st' closed cur' /\
+        w_staging st' = [] /\ content st' closed cur' = content st closed cur.
   Proof.
-    intros st blocks H0. unfold flush. destruct (w_staging st) as [|x stg] eqn:Es.
-    - exists st, blocks. split; [reflexivity|]. split.
+    intros st closed cur H0. unfold flush. destruct (w_staging st) as [|x stg] eqn:Es.
+    - exists st, cur. split; [reflexivity|]. split.
       + split; [exact H0|]. rewrite Es. cbn. unfold MAX_BUF_SIZE. lia.
-      + split; [exact Es|]. unfold content. rewrite Es. symmetry. apply app_nil_r.
+      + split; [exact Es|reflexivity].
     - assert (Hne : w_staging st <> []) by (rewrite Es; discriminate).
-      destruct (flush_block_inv st blocks H0 Hne) as (st' & Hf & Hinv & Hst).
-      exists st', (blocks ++ [w_staging st]). split; [exact Hf|]. split; [exact Hinv|].
-      split; [exact Hst|]. unfold content. rewrite concat_app. cbn [concat]. rewrite app_nil_r.
+      destruct (flush_block_inv st closed cur H0 Hne) as (st' & Hf & Hinv & Hst).
+      exists st', (cur ++ [w_staging st]). split; [exact Hf|]. split; [exact Hinv|].
+      split; [exact Hst|]. unfold content. rewrite Hst, concat_app. cbn [concat]. rewrite !app_nil_r.
       reflexivity.
   Qed.
 
@@ -103,42 +146,40 @@ Section WriterProofs.
   Proof. intros l n Hn. unfold lenN in *. rewrite firstn_length. lia. Qed.
 
   Lemma write_inv :
-    forall st blocks buf, inv st blocks ->
-      exists st' blocks',
+    forall st closed cur buf, inv st closed cur ->
+      exists st' cur',
         let amt := N.min (MAX_BUF_SIZE - lenN (w_staging st)) (lenN buf) in
-        write deflate lvl st buf = (st', Ok amt) /\ inv st' blocks' /\
-        content st' blocks' = content st blocks ++ firstn (N.to_nat amt) buf.
+        write deflate lvl st buf = (st', Ok amt) /\ inv st' closed cur' /\
+        content st' closed cur' = content st closed cur ++ firstn (N.to_nat amt) buf.
   Proof.
-    intros st blocks buf (H0 & Hlt). cbn zeta.
+    intros st closed cur buf (H0 & Hlt). cbn zeta.
     set (amt := N.min (MAX_BUF_SIZE - lenN (w_staging st)) (lenN buf)).
     unfold write. fold amt.
     destruct (MAX_BUF_SIZE <? lenN (w_staging st)) eqn:E; [lia|].
-    set (st1 := mk_wstate (w_pos st) (w_staging st ++ firstn (N.to_nat amt) buf) (w_sink st) (w_inner st)).
+    set (st1 := mk_wstate (w_pos st) (w_staging st ++ firstn (N.to_nat amt) buf) (w_sink st) (w_inner st) (w_finished st)).
     assert (Hlen1 : lenN (w_staging st1) = lenN (w_staging st) + amt).
     { unfold st1. cbn [w_staging]. rewrite lenN_app, lenN_firstn by lia. reflexivity. }
-    assert (H01 : inv0 st1 blocks).
-    { destruct H0 as (Hs & Hp & Hl & Hb & Hi). unfold inv0, st1. cbn [w_sink w_pos w_staging w_inner].
-      repeat split; try assumption. fold st1. change (w_staging st ++ firstn (N.to_nat amt) buf) with (w_staging st1).
-      lia. }
-    assert (Hc1 : content st1 blocks = content st blocks ++ firstn (N.to_nat amt) buf).
-    { unfold content, st1. cbn [w_staging]. apply app_assoc. }
+    assert (H01 : inv0 st1 closed cur).
+    { destruct H0 as (Hb & Hf & Hl). unfold inv0. split; [exact Hb|]. split; [exact Hf|]. lia. }
+    assert (Hc1 : content st1 closed cur = content st closed cur ++ firstn (N.to_nat amt) buf).
+    { unfold content, st1. cbn [w_staging]. rewrite <- !app_assoc. reflexivity. }
     destruct (lenN (w_staging st1) <? MAX_BUF_SIZE) eqn:E1.
-    - exists st1, blocks. split; [reflexivity|]. split; [|exact Hc1]. split; [exact H01|lia].
-    - destruct (flush_inv st1 blocks H01) as (st2 & blocks2 & Hf & Hinv2 & Hst2 & Hcat).
-      rewrite Hf. exists st2, blocks2. split; [reflexivity|]. split; [exact Hinv2|].
-      unfold content at 1. rewrite Hst2, app_nil_r, Hcat. exact Hc1.
+    - exists st1, cur. split; [reflexivity|]. split; [|exact Hc1]. split; [exact H01|lia].
+    - destruct (flush_inv st1 closed cur H01) as (st2 & cur2 & Hf & Hinv2 & Hst2 & Hcat).
+      rewrite Hf. exists st2, cur2. split; [reflexivity|]. split; [exact Hinv2|].
+      rewrite Hcat. exact Hc1.
   Qed.
 
   Lemma write_all_inv :
-    forall fuel buf st blocks, (length buf < fuel)%nat -> inv st blocks ->
-      exists st' blocks', write_all deflate fuel lvl st buf = (st', Ok tt) /\ inv st' blocks' /\
-        content st' blocks' = content st blocks ++ buf.
+    forall fuel buf st closed cur, (length buf < fuel)%nat -> inv st closed cur ->
+      exists st' cur', write_all deflate fuel lvl st buf = (st', Ok tt) /\ inv st' closed cur' /\
+        content st' closed cur' = content st closed cur ++ buf.
   Proof.
-    induction fuel as [|fuel IH]; intros buf st blocks Hfuel Hinv; [lia|].
+    induction fuel as [|fuel IH]; intros buf st closed cur Hfuel Hinv; [lia|].
     destruct buf as [|x buf'].
-    - exists st, blocks. split; [reflexivity|]. split; [exact Hinv|]. symmetry. apply app_nil_r.
+    - exists st, cur. split; [reflexivity|]. split; [exact Hinv|]. symmetry. apply app_nil_r.
     - cbn [write_all]. remember (x :: buf') as buf eqn:Eb.
-      destruct (write_inv st blocks buf Hinv) as (st1 & blocks1 & Hw & Hinv1 & Hc1). cbn zeta in Hw, Hc1.
+      destruct (write_inv st closed cur buf Hinv) as (st1 & cur1 & Hw & Hinv1 & Hc1). cbn zeta in Hw, Hc1.
       set (amt := N.min (MAX_BUF_SIZE - lenN (w_staging st)) (lenN buf)) in *.
       rewrite Hw.
       assert (Hpos : 0 < amt).
@@ -147,116 +188,138 @@ Section WriterProofs.
       destruct (amt =? 0) eqn:E0; [lia|].
       assert (Hsk : (length (skipn (N.to_nat amt) buf) < fuel)%nat).
       { rewrite skipn_length. unfold lenN in Hle. lia. }
-      destruct (IH _ st1 blocks1 Hsk Hinv1) as (st2 & blocks2 & Hwa & Hinv2 & Hc2).
-      exists st2, blocks2. split; [exact Hwa|]. split; [exact Hinv2|].
+      destruct (IH _ st1 closed cur1 Hsk Hinv1) as (st2 & cur2 & Hwa & Hinv2 & Hc2).
+      exists st2, cur2. split; [exact Hwa|]. split; [exact Hinv2|].
       rewrite Hc2, Hc1, <- app_assoc, firstn_skipn. reflexivity.
   Qed.
 
-  Lemma step_inv :
-    forall st blocks o, inv st blocks ->
-      exists st' blocks' r, step deflate lvl st o = (st', r) /\ is_ok r /\ inv st' blocks' /\
-        content st' blocks' = content st blocks ++ accepted_of o r.
+  (* try_finish: flush, then one marker unless the stream is already finished *)
+  Lemma try_finish_inv :
+    forall st closed cur, inv0 st closed cur ->
+      exists st' closed', try_finish deflate lvl st = (st', Ok tt) /\ inv st' closed' [] /\
+        w_finished st' = true /\ w_staging st' = [] /\
+        content st' closed' [] = content st closed cur /\
+        (closed = [] -> exists seg, closed' = [seg]).
   Proof.
-    intros st blocks o Hinv. destruct o as [buf|buf|].
-    - destruct (write_inv st blocks buf Hinv) as (st1 & blocks1 & Hw & Hinv1 & Hc1). cbn zeta in Hw, Hc1.
-      cbn [step]. rewrite Hw. eexists st1, blocks1, _. split; [reflexivity|].
-      split; [exact I|]. split; [exact Hinv1|]. cbn [accepted_of]. exact Hc1.
-    - destruct (write_all_inv (S (length buf)) buf st blocks ltac:(lia) Hinv) as (st1 & blocks1 & Hw & Hinv1 & Hc1).
-      cbn [step]. rewrite Hw. eexists st1, blocks1, _. split; [reflexivity|].
-      split; [exact I|]. split; [exact Hinv1|]. cbn [accepted_of]. exact Hc1.
-    - destruct Hinv as (H0 & Hlt).
-      destruct (flush_inv st blocks H0) as (st1 & blocks1 & Hf & Hinv1 & Hst1 & Hcat).
-      cbn [step]. rewrite Hf. eexists st1, blocks1, _. split; [reflexivity|].
-      split; [exact I|]. split; [exact Hinv1|]. cbn [accepted_of]. rewrite app_nil_r.
-      unfold content at 1. rewrite Hst1, app_nil_r. exact Hcat.
+    intros st closed cur H0.
+    destruct (flush_inv st closed cur H0) as (st1 & cur1 & Hf & Hinv1 & Hst1 & Hcat).
+    unfold try_finish. rewrite Hf.
+    destruct Hinv1 as (((Hs & Hp & Hgc & Hgb & Hi & Htn) & (Hf1 & Hf2) & Hl) & Hlt).
+    destruct (w_finished st1) eqn:Efin.
+    - destruct (Hf1 eq_refl) as (Hcur & Hne). subst cur1.
+      exists st1, closed. split; [reflexivity|]. split.
+      + unfold inv, inv0, base, flag. rewrite Efin. repeat split; try assumption; try discriminate.
+      + split; [exact Efin|]. split; [exact Hst1|]. split; [exact Hcat|].
+        intros Hc. contradiction.
+    - eexists _, (closed ++ [cur1]). split; [reflexivity|].
+      pose proof (Hf2 eq_refl) as Hor.
+      split; [|split; [reflexivity|split; [exact Hst1|split]]].
+      + unfold inv, inv0, base, flag. cbn [w_sink w_pos w_staging w_inner w_finished].
+        split; [split; [split; [|split; [|split; [|split; [|split]]]]|split]|].
+        * rewrite Hs, segs_bytes_snoc. unfold seg_bytes. cbn [map]. unfold frames_bytes at 3.
+          cbn [map concat]. rewrite app_nil_r, <- !app_assoc. reflexivity.
+        * rewrite Hp, !lenN_app. reflexivity.
+        * apply Forall_app. split; [exact Hgc|]. constructor; [exact Hgb|constructor].
+        * constructor.
+        * exact Hi.
+        * apply tail_nonempty_snoc; assumption.
+        * split; [|discriminate]. intros _. split; [reflexivity|]. destruct closed; discriminate.
+        * rewrite Hst1. cbn. unfold MAX_BUF_SIZE. lia.
+        * rewrite Hst1. cbn. unfold MAX_BUF_SIZE. lia.
+      + rewrite <- Hcat. unfold content. cbn [w_staging concat app]. rewrite Hst1.
+        rewrite concat_app, concat_app. cbn [concat]. rewrite !app_nil_r. reflexivity.
+      + intros Hc. subst closed. exists cur1. reflexivity.
   Qed.
 
-  Lemma run_ops_inv :
-    forall ops st blocks, inv st blocks ->
-      exists st' blocks' obs, run_ops deflate lvl st ops = (st', obs, false) /\ inv st' blocks' /\
-        content st' blocks' = content st blocks ++ accepted ops obs /\
-        Forall (fun o => is_ok (fst o)) obs /\ length obs = length ops.
+  Lemma try_finish_idem :
+    forall st, w_finished st = true -> w_staging st = [] -> try_finish deflate lvl st = (st, Ok tt).
+  Proof. intros st Hf Hs. unfold try_finish, flush. rewrite Hs, Hf. reflexivity. Qed.
+
+  Lemma step_inv :
+    forall st closed cur o, inv st closed cur ->
+      exists st' closed' cur' r, step deflate lvl st o = (st', r) /\ is_ok r /\ inv st' closed' cur' /\
+        content st' closed' cur' = content st closed cur ++ accepted_of o r /\
+        (o <> OTryFinish -> closed' = closed).
   Proof.
-    induction ops as [|o ops IH]; intros st blocks Hinv.
-    - exists st, blocks, []. split; [reflexivity|]. split; [exact Hinv|].
-      split; [cbn [accepted]; symmetry; apply app_nil_r|]. split; [constructor|reflexivity].
-    - destruct (step_inv st blocks o Hinv) as (st1 & blocks1 & r & Hs & Hok & Hinv1 & Hc1).
-      destruct (IH st1 blocks1 Hinv1) as (st2 & blocks2 & obs & Hr & Hinv2 & Hc2 & Hall & Hlen).
+    intros st closed cur o Hinv. destruct o as [buf|buf| |].
+    - destruct (write_inv st closed cur buf Hinv) as (st1 & cur1 & Hw & Hinv1 & Hc1). cbn zeta in Hw, Hc1.
+      cbn [step]. rewrite Hw. eexists st1, closed, cur1, _. split; [reflexivity|].
+      split; [exact I|]. split; [exact Hinv1|]. split; [cbn [accepted_of]; exact Hc1|reflexivity].
+    - destruct (write_all_inv (S (length buf)) buf st closed cur ltac:(lia) Hinv) as (st1 & cur1 & Hw & Hinv1 & Hc1).
+      cbn [step]. rewrite Hw. eexists st1, closed, cur1, _. split; [reflexivity|].
+      split; [exact I|]. split; [exact Hinv1|]. split; [cbn [accepted_of]; exact Hc1|reflexivity].
+    - destruct Hinv as (H0 & Hlt).
+      destruct (flush_inv st closed cur H0) as (st1 & cur1 & Hf & Hinv1 & Hst1 & Hcat).
+      cbn [step]. rewrite Hf. eexists st1, closed, cur1, _. split; [reflexivity|].
+      split; [exact I|]. split; [exact Hinv1|]. cbn [accepted_of]. rewrite app_nil_r.
+      split; [exact Hcat|reflexivity].
+    - destruct Hinv as (H0 & Hlt).
+      destruct (try_finish_inv st closed cur H0) as (st1 & closed1 & Hf & Hinv1 & _ & _ & Hcat & _).
+      cbn [step]. rewrite Hf. eexists st1, closed1, [], _. split; [reflexivity|].
+      split; [exact I|]. split; [exact Hinv1|]. cbn [accepted_of]. rewrite app_nil_r.
+      split; [exact Hcat|]. intros Hne. contradiction.
+  Qed.
+
+  Definition no_try_finish (ops : list op) : Prop := Forall (fun o => o <> OTryFinish) ops.
+
+  Lemma run_ops_inv :
+    forall ops st closed cur, inv st closed cur ->
+      exists st' closed' cur' obs, run_ops deflate lvl st ops = (st', obs, false) /\ inv st' closed' cur' /\
+        content st' closed' cur' = content st closed cur ++ accepted ops obs /\
+        Forall (fun o => is_ok (fst o)) obs /\ length obs = length ops /\
+        (no_try_finish ops -> closed' = closed).
+  Proof.
+    induction ops as [|o ops IH]; intros st closed cur Hinv.
+    - exists st, closed, cur, []. split; [reflexivity|]. split; [exact Hinv|].
+      split; [cbn [accepted]; symmetry; apply app_nil_r|]. split; [constructor|]. split; reflexivity.
+    - destruct (step_inv st closed cur o Hinv) as (st1 & closed1 & cur1 & r & Hs & Hok & Hinv1 & Hc1 & Hcl1).
+      destruct (IH st1 closed1 cur1 Hinv1) as (st2 & closed2 & cur2 & obs & Hr & Hinv2 & Hc2 & Hall & Hlen & Hcl2).
       cbn [run_ops]. rewrite Hs. destruct r as [v|e|]; [|contradiction|contradiction].
-      rewrite Hr. eexists st2, blocks2, _. split; [reflexivity|]. split; [exact Hinv2|].
-      split; [|split].
+      rewrite Hr. eexists st2, closed2, cur2, _. split; [reflexivity|]. split; [exact Hinv2|].
+      split; [|split; [|split]].
       + cbn [accepted]. rewrite Hc2, Hc1, <- app_assoc. reflexivity.
       + constructor; [exact I|exact Hall].
       + cbn [length]. rewrite Hlen. reflexivity.
-  Qed.
-
-  (* state after a successful try_finish: frames, then k EOF markers, nothing staged *)
-  Definition finished (st : wstate) (blocks : list (list N)) (k : nat) : Prop :=
-    w_sink st = frames_bytes (map wframe blocks) ++ concat (repeat eof_block k) /\
-    w_pos st = lenN (w_sink st) /\ w_staging st = [] /\ Forall good_block blocks /\ w_inner st = true.
-
-  Lemma try_finish_inv :
-    forall st blocks, inv0 st blocks ->
-      exists st' blocks', try_finish deflate lvl st = (st', Ok tt) /\ finished st' blocks' 1 /\
-        concat blocks' = content st blocks.
-  Proof.
-    intros st blocks H0.
-    destruct (flush_inv st blocks H0) as (st1 & blocks1 & Hf & ((Hs & Hp & Hl & Hb & Hi) & _) & Hst1 & Hcat).
-    unfold try_finish. rewrite Hf. eexists _, blocks1. split; [reflexivity|]. split; [|exact Hcat].
-    unfold finished. cbn [w_sink w_pos w_staging w_inner repeat concat]. rewrite app_nil_r.
-    repeat split; try assumption.
-    - rewrite Hs. reflexivity.
-    - rewrite Hp, !lenN_app. reflexivity.
-  Qed.
-
-  Lemma try_finish_again :
-    forall st blocks k, finished st blocks k ->
-      exists st', try_finish deflate lvl st = (st', Ok tt) /\ finished st' blocks (S k).
-  Proof.
-    intros [pos stg sink inner] blocks k (Hs & Hp & Hst & Hb & Hi). cbn [w_sink w_pos w_staging w_inner] in *.
-    subst stg. unfold try_finish, flush. cbn [w_sink w_pos w_staging w_inner].
-    eexists. split; [reflexivity|]. unfold finished. cbn [w_sink w_pos w_staging w_inner].
-    repeat split; try assumption.
-    - rewrite Hs, <- app_assoc. f_equal.
-      replace (S k) with (k + 1)%nat by lia. rewrite repeat_app, concat_app. cbn [repeat concat].
-      rewrite app_nil_r. reflexivity.
-    - rewrite Hp, lenN_app. reflexivity.
+      + intros Hno. inversion Hno as [|? ? Ho Hrest]; subst.
+        rewrite (Hcl2 Hrest). apply Hcl1. exact Ho.
   Qed.
 
   (* ---- the file a script leaves behind ---- *)
-  Definition n_eof (e : ending) : nat := match e with ETryFinishDrop => 2%nat | _ => 1%nat end.
-
   Theorem writer_wellformed :
     forall ops e,
       let o := run_script deflate lvl ops e in
-      exists blocks,
-        o_sink o = frames_bytes (map wframe blocks) ++ concat (repeat eof_block (n_eof e)) /\
-        Forall good_block blocks /\
-        concat blocks = accepted ops (o_results o) /\
+      exists segs,
+        o_sink o = segs_bytes segs /\ segs <> [] /\ tail_nonempty segs /\
+        Forall (Forall good_block) segs /\
+        concat (concat segs) = accepted ops (o_results o) /\
         o_end o = Ok tt /\
-        Forall (fun r => is_ok (fst r)) (o_results o) /\ length (o_results o) = length ops.
+        Forall (fun r => is_ok (fst r)) (o_results o) /\ length (o_results o) = length ops /\
+        (no_try_finish ops -> exists blocks, segs = [blocks]).
   Proof.
     intros ops e. cbn zeta. unfold run_script.
-    destruct (run_ops_inv ops w_init [] inv_init) as (st & blocks & obs & Hr & (H0 & Hlt) & Hc & Hall & Hlen).
+    destruct (run_ops_inv ops w_init [] [] inv_init) as (st & closed & cur & obs & Hr & (H0 & Hlt) & Hc & Hall & Hlen & Hcl).
     rewrite Hr. unfold content in Hc. cbn [concat w_init w_staging app] in Hc.
-    destruct (try_finish_inv st blocks H0) as (st1 & blocks1 & Htf & Hfin & Hcat).
-    assert (Hacc : concat blocks1 = accepted ops obs) by (rewrite Hcat; exact Hc).
-    destruct e; cbn [run_ending n_eof].
-    - (* finish *)
-      rewrite Htf. cbn [o_sink o_end o_results take_inner w_sink].
-      destruct Hfin as (Hs & _ & _ & Hb & _). exists blocks1. repeat split; assumption.
-    - (* try_finish + into_inner *)
-      rewrite Htf. cbn [o_sink o_end o_results take_inner w_sink].
-      destruct Hfin as (Hs & _ & _ & Hb & _). exists blocks1. repeat split; assumption.
-    - (* drop *)
-      unfold drop. destruct H0 as (Hs0 & Hp0 & Hl0 & Hb0 & Hi0). rewrite Hi0, Htf.
-      cbn [fst o_sink o_end o_results].
-      destruct Hfin as (Hs & _ & _ & Hb & _). exists blocks1. repeat split; assumption.
-    - (* try_finish, then drop: a second EOF marker *)
-      rewrite Htf. destruct (try_finish_again st1 blocks1 1 Hfin) as (st2 & Htf2 & Hfin2).
-      unfold drop. destruct Hfin as (_ & _ & _ & _ & Hi1). rewrite Hi1, Htf2.
-      cbn [fst o_sink o_end o_results].
-      destruct Hfin2 as (Hs & _ & _ & Hb & _). exists blocks1. repeat split; assumption.
+    destruct (try_finish_inv st closed cur H0) as (st1 & segs & Htf & Hinv1 & Hfin1 & Hst1 & Hcat & Hone).
+    assert (Hidem : try_finish deflate lvl st1 = (st1, Ok tt)) by (apply try_finish_idem; assumption).
+    destruct Hinv1 as (((Hs & Hp & Hgc & Hgb & Hi & Htn) & (Hf1 & Hf2) & Hl) & Hlt1).
+    destruct (Hf1 Hfin1) as (_ & Hne).
+    assert (Hsink : w_sink st1 = segs_bytes segs).
+    { rewrite Hs. unfold frames_bytes. cbn [map concat]. apply app_nil_r. }
+    assert (Hacc : concat (concat segs) = accepted ops obs).
+    { rewrite <- Hc. unfold content in Hcat. rewrite Hst1 in Hcat. cbn [concat app] in Hcat.
+      rewrite !app_nil_r in Hcat. rewrite Hcat. unfold content. rewrite app_assoc. reflexivity. }
+    assert (Hsimple : no_try_finish ops -> exists blocks, segs = [blocks]).
+    { intros Hno. apply Hone. apply Hcl. exact Hno. }
+    assert (Hinner : w_inner st = true) by (destruct H0 as ((_ & _ & _ & _ & Hi0 & _) & _); exact Hi0).
+    destruct e; cbn [run_ending].
+    - rewrite Htf. cbn [o_sink o_end o_results take_inner w_sink].
+      exists segs. repeat split; assumption.
+    - rewrite Htf. cbn [o_sink o_end o_results take_inner w_sink].
+      exists segs. repeat split; assumption.
+    - unfold drop. rewrite Hinner, Htf. cbn [fst o_sink o_end o_results].
+      exists segs. repeat split; assumption.
+    - rewrite Htf. unfold drop. rewrite Hi, Hidem. cbn [fst o_sink o_end o_results].
+      exists segs. repeat split; assumption.
   Qed.
 
   (* what each emitted frame looks like *)
@@ -315,26 +378,71 @@ Section WriterProofs.
   Theorem writer_wellformed_full :
     forall ops e,
       let o := run_script deflate lvl ops e in
+      exists segs,
+        o_sink o = segs_bytes segs /\ segs <> [] /\ tail_nonempty segs /\
+        Forall (Forall frame_wf) segs /\
+        concat (concat segs) = accepted ops (o_results o) /\
+        o_end o = Ok tt /\
+        Forall (fun r => is_ok (fst r)) (o_results o) /\ length (o_results o) = length ops /\
+        (no_try_finish ops -> exists blocks, segs = [blocks]).
+  Proof.
+    intros ops e. cbn zeta.
+    destruct (writer_wellformed ops e) as (segs & Hs & Hne & Htn & Hb & Hacc & Hend & Hall & Hlen & Hone).
+    exists segs. split; [exact Hs|]. split; [exact Hne|]. split; [exact Htn|]. split.
+    - eapply Forall_impl; [|exact Hb]. intros seg Hseg.
+      eapply Forall_impl; [|exact Hseg]. exact good_block_frame_wf.
+    - repeat split; assumption.
+  Qed.
+
+  (* scripts of write / write_all / flush only: ONE marker, whatever the ending (finish,
+     try_finish + into_inner, drop, try_finish then drop) *)
+  Theorem writer_wellformed_single :
+    forall ops e, no_try_finish ops ->
+      let o := run_script deflate lvl ops e in
       exists blocks,
-        o_sink o = frames_bytes (map wframe blocks) ++ concat (repeat eof_block (n_eof e)) /\
+        o_sink o = frames_bytes (map wframe blocks) ++ eof_block /\
         Forall frame_wf blocks /\
         concat blocks = accepted ops (o_results o) /\
         o_end o = Ok tt /\
         Forall (fun r => is_ok (fst r)) (o_results o) /\ length (o_results o) = length ops.
   Proof.
-    intros ops e. cbn zeta.
-    destruct (writer_wellformed ops e) as (blocks & Hs & Hb & Hacc & Hend & Hall & Hlen).
-    exists blocks. split; [exact Hs|]. split.
-    - eapply Forall_impl; [|exact Hb]. exact good_block_frame_wf.
-    - repeat split; assumption.
+    intros ops e Hno. cbn zeta.
+    destruct (writer_wellformed_full ops e) as (segs & Hs & _ & _ & Hb & Hacc & Hend & Hall & Hlen & Hone).
+    destruct (Hone Hno) as (blocks & Hsegs). subst segs. exists blocks.
+    split; [rewrite Hs; unfold segs_bytes, seg_bytes; cbn [map concat]; apply app_nil_r|].
+    split; [inversion Hb; assumption|].
+    split; [rewrite <- Hacc; cbn [concat]; rewrite app_nil_r; reflexivity|].
+    repeat split; assumption.
   Qed.
 
-  Lemma eofs_as_frames :
-    forall k, concat (repeat eof_block k) = frames_bytes (repeat ([], [3; 0]) k).
+  (* a segment as a list of (block, cdata) frames *)
+  Definition eof_item : list N * list N := ([], [3; 0]).
+  Definition seg_items (seg : list (list N)) : list (list N * list N) := map wframe seg ++ [eof_item].
+
+  Lemma seg_bytes_items : forall seg, seg_bytes seg = frames_bytes (seg_items seg).
   Proof.
-    induction k as [|k IH]; [reflexivity|].
-    cbn [repeat concat]. unfold frames_bytes in *. cbn [map concat]. rewrite <- IH, fbytes_eof.
+    intros seg. unfold seg_bytes, seg_items. rewrite frames_bytes_app, frames_bytes_one.
+    unfold eof_item. rewrite fbytes_eof. reflexivity.
+  Qed.
+
+  Lemma segs_bytes_items : forall segs, segs_bytes segs = frames_bytes (concat (map seg_items segs)).
+  Proof.
+    induction segs as [|seg segs IH]; [reflexivity|].
+    unfold segs_bytes in *. cbn [map concat]. rewrite frames_bytes_app, <- IH, seg_bytes_items.
     reflexivity.
+  Qed.
+
+  Lemma seg_items_data : forall seg, concat (map fst (seg_items seg)) = concat seg.
+  Proof.
+    intros seg. unfold seg_items. rewrite map_app, concat_app, map_map. cbn [wframe fst map concat eof_item].
+    rewrite map_id. apply app_nil_r.
+  Qed.
+
+  Lemma segs_items_data :
+    forall segs, concat (map fst (concat (map seg_items segs))) = concat (concat segs).
+  Proof.
+    induction segs as [|seg segs IH]; [reflexivity|].
+    cbn [map concat]. rewrite map_app, !concat_app, IH, seg_items_data. reflexivity.
   Qed.
 
   Theorem writer_reader_roundtrip :
@@ -343,16 +451,12 @@ Section WriterProofs.
       reader_read_to_end inflate (o_sink o) = (accepted ops (o_results o), Ok tt).
   Proof.
     intros ops e. cbn zeta.
-    destruct (writer_wellformed ops e) as (blocks & Hs & Hb & Hacc & _).
-    rewrite Hs, eofs_as_frames, <- frames_bytes_app.
-    rewrite reader_read_to_end_frames.
-    - rewrite map_app, concat_app, map_map. cbn [wframe fst].
-      rewrite map_id, <- Hacc. f_equal.
-      assert (Hnil : forall k, concat (map fst (repeat (@nil N, [3; 0]) k)) = []).
-      { induction k as [|k IH]; [reflexivity|]. cbn [repeat map concat fst app]. exact IH. }
-      rewrite Hnil. apply app_nil_r.
-    - apply Forall_app. split.
-      + rewrite Forall_map. eapply Forall_impl; [|exact Hb]. intros b Hgb. apply good_wframe. exact Hgb.
-      + apply Forall_forall. intros f Hin. apply repeat_spec in Hin. subst f. apply good_eof. exact H_eof.
+    destruct (writer_wellformed ops e) as (segs & Hs & _ & _ & Hb & Hacc & _).
+    rewrite Hs, segs_bytes_items, reader_read_to_end_frames.
+    - rewrite segs_items_data, Hacc. reflexivity.
+    - apply Forall_concat. rewrite Forall_map. eapply Forall_impl; [|exact Hb].
+      intros seg Hseg. unfold seg_items. apply Forall_app. split.
+      + rewrite Forall_map. eapply Forall_impl; [|exact Hseg]. intros b Hgb. apply good_wframe. exact Hgb.
+      + constructor; [apply good_eof; exact H_eof|constructor].
   Qed.
 End WriterProofs.
